@@ -232,7 +232,7 @@ def run(R):
     items = []
     cnt = 4000 if R.thorough else 500
     for t in range(cnt):
-        m = R.rng.choice([2, 2, 3, 3, 4, 5, 6, 8, 12])
+        m = R.rng.choice([1, 2, 2, 3, 3, 4, 5, 6, 8, 12])
         n = R.rng.choice([1, 2, 3, 4, 5, 7, 10, 20, 60])
         P = V.structured_profile(R.rng, n, m) if R.rng.random() < 0.4 else V.rand_profile(R.rng, n, m)
         items.append({"P": P, "m": m, "zero": R.rng.random() < 0.5})
